@@ -1708,9 +1708,43 @@ fn step_probe_faulted(env: &Env, ctx: &mut ThreadCtx, fallback: TargetRef) -> bo
 	if lids.is_empty() {
 		return false;
 	}
+	// "kills only that lock": `{:?}` shows `<locked>` for a lock it cannot
+	// try-lock - held, or killed.  More `<locked>` members than locks that are
+	// held or had an operation of their own panic = a lock was killed whose
+	// operations never panicked (collections that print their members only)
+	if !env.exec.is_abort() {
+		if let Some(tg) = target_of(env, fallback) {
+			let mut shown = String::new();
+			non_acquiring(env, tid, "debug after fault", || {
+				shown = tg.debug_fmt();
+			});
+			let n_locked = shown.matches("<locked>").count();
+			let table = env.exec.table();
+			let flat = env.sem.target_flat(fallback);
+			let explained = flat
+				.pos
+				.iter()
+				.filter(|p| {
+					let (excl, shared) = table.get(p.leaf as usize).cloned().unwrap_or((None, vec![]));
+					lids.contains(&p.leaf) || excl.is_some() || (p.ty == LeafTy::M && !shared.is_empty())
+				})
+				.count();
+			if n_locked > explained {
+				env.finding(
+					"C12",
+					tid,
+					format!("killed-without-a-fault-of-its-own|{}", kind_name(env, fallback)),
+					format!(
+						"after the raw-operation panic on {:?}, `{{:?}}` of {fallback:?} shows {n_locked} members as <locked> but only {explained} of its locks are held or had an operation panic: a lock was made unusable although none of its operations panicked ({shown})",
+						lids
+					),
+				);
+			}
+		}
+	}
 	let nstandalone = env.world.leaves.len();
 	let mut targets: Vec<(TargetRef, Lid)> = Vec::new();
-	for l in lids {
+	for l in lids.clone() {
 		let t = if (l as usize) < nstandalone { TargetRef::Leaf(l as usize) } else { fallback };
 		if !targets.iter().any(|(x, _)| *x == t) {
 			targets.push((t, l));
